@@ -3,7 +3,7 @@
 from copy import copy
 
 from kernel import type as hol_type
-from kernel.type import Type
+from kernel.type import Type, TyInst
 from kernel import term
 from kernel.term import Term, Inst
 from kernel.thm import Thm
@@ -93,7 +93,7 @@ def print_type_constr(constr):
 
 def print_str_args(rule, args, th):
     def str_val(val):
-        if isinstance(val, Inst):
+        if isinstance(val, Inst) or isinstance(val, TyInst):
             items = sorted(val.items(), key = lambda pair: pair[0])
             return pprint.N('{') + commas_join(pprint.N(key + ': ') + str_val(val)
                                                for key, val in items) + pprint.N('}')
@@ -113,7 +113,7 @@ def print_str_args(rule, args, th):
 
     if isinstance(args, tuple) or isinstance(args, list):
         return commas_join(str_val(val) for val in args)
-    elif args:
+    elif args is not None:
         return str_val(args)
     else:
         return [] if settings.highlight else ""
